@@ -13,6 +13,7 @@
 (*   "disable_keeps_target" disable() keeps the previous target, enable() then starts from it (as found)*)
 (*   "from_now"             the next computation starts from now instead of max(now, previous target)  *)
 EXTENDS AlarmCalc
+CONSTANT Strict               \* TRUE: the answer of the algorithm only (models); FALSE: see ArmChoices (trace validation)
 
 VARIABLES
   wall, mono, sysoff,          \* clocks; system zone offset (used while no explicit zone is set)
@@ -70,10 +71,20 @@ InitWith(w, m, so) ==
 \* Alarm::activeTimer() with configuration c, the value tgt of target_utc_sec_ it finds, and (ghost) the base
 \* instant the property demands: "now" for enable()/refresh(), max(now, the instant just fired) for the re-arm.
 \* On success the timer is armed and state becomes Running; on failure nothing but `ok` changes here.
+\* The answer is the one of the algorithm (AlarmCalc!NextAlg).  Where the statement leaves room - the next instant lies
+\* more than a year ahead, beyond or at the edge of the finite search windows - the non-strict reading used for trace
+\* validation also admits "found the declarative next instant" and "nothing found", so that a refactored search window
+\* is not reported.
+ArmChoices(c, base) ==
+  LET a == NextAlgUtc(c, Off, base) IN
+  IF Strict THEN {a}
+  ELSE LET lb == Shift(base, Off)
+           dl == NextDecl(c, lb, Horizon(c))
+       IN IF dl # NoInst /\ dl[1] - lb[1] > 365 THEN {a, Shift(dl, -Off), NoInst} ELSE {a}
 Arm(c, tgt, demand, ok) ==
   LET base == IF Variant = "from_now" THEN Now ELSE MaxI(Now, tgt)
-      nxt  == NextAlgUtc(c, Off, base)
-  IN IF nxt = NoInst
+  IN \E nxt \in ArmChoices(c, base) :
+     IF nxt = NoInst
      THEN /\ ok = FALSE
           /\ UNCHANGED <<deadline, delay, armWall, armBase, armOff>>
      ELSE /\ ok = TRUE
